@@ -146,6 +146,35 @@ pub fn child(args: &[String]) {
             }
             out["docs"] = json!([a, r, m]);
         }
+        sc if sc.starts_with("paths-") => {
+            // HOME = <tmp>/home (set above), the current directory = <tmp>/cwd (set by the parent)
+            let doc = tmp.join("docs").join("p.txt");
+            std::fs::create_dir_all(doc.parent().unwrap()).unwrap();
+            std::fs::write(&doc, "This is teh test, zqprivateword.").unwrap();
+            let cfg = json!({"harper-ls": paths_config(sc, &tmp)});
+            let ud = file_url(&doc);
+            let res: Result<Value, LsError> = (|| {
+                let mut ls = LsSession::start()?;
+                ls.initialize(&cfg)?;
+                ls.notify("textDocument/didOpen", did_open(&ud, "plaintext", "This is teh test, zqprivateword."))?;
+                while ls.pending_count() > 0 {
+                    ls.answer_config_at(0, &cfg)?;
+                }
+                ls.send_request("workspace/executeCommand", json!({"command": "HarperAddToUserDict", "arguments": ["zqprivateword", ud]}), &cfg)?;
+                ls.send_request("workspace/executeCommand", json!({"command": "HarperAddToFileDict", "arguments": ["teh", ud]}), &cfg)?;
+                ls.quiesce(&cfg)?;
+                let pubs = ls.all_publications().len();
+                ls.shutdown(&cfg)?;
+                Ok(json!({"publications": pubs}))
+            })();
+            match res {
+                Ok(v) => out["result"] = v,
+                Err(e) => out["error"] = json!(e.to_string()),
+            }
+            out["docs"] = json!([doc]);
+            out["cwd"] = json!(std::env::current_dir().ok());
+            out["config"] = cfg;
+        }
         _ => {
             out["error"] = json!("unknown scenario");
         }
@@ -882,6 +911,320 @@ fn binary_scenarios(sess: &mut Session, out_abs: &Path) -> Value {
 // run
 // ------------------------------------------------------------------------------------------
 
+// ------------------------------------------------------------------------------------------
+// configured path strings → the paths that are written
+// ------------------------------------------------------------------------------------------
+
+const PATH_SCENARIOS: [&str; 4] = ["paths-tilde", "paths-tilde-stats", "paths-relative", "paths-absolute"];
+
+/// the three path keys a client answers `workspace/configuration` with, per scenario
+fn paths_config(scenario: &str, tmp: &Path) -> Value {
+    let abs = |x: &str| tmp.join("abs").join(x).to_string_lossy().to_string();
+    match scenario {
+        "paths-tilde" => json!({"userDictPath": "~/t/my dictionary.txt", "fileDictPath": "~/t/fd"}),
+        // the `statsPath` key sets the file-dictionary directory and overrides `fileDictPath`
+        "paths-tilde-stats" => json!({"userDictPath": "~/t2/d.txt", "fileDictPath": "~/t2/fd-overridden", "statsPath": "~//t2/./sp"}),
+        "paths-relative" => json!({"userDictPath": "rel/ud.txt", "fileDictPath": "./rel/fd", "statsPath": "../cwd-sibling/sp"}),
+        _ => json!({"userDictPath": abs("u.txt"), "fileDictPath": abs("fd-overridden"), "statsPath": abs("sp")}),
+    }
+}
+
+/// components of a path the way `Path::components` normalises them (no `.`; `..` kept), joined
+fn show_components(p: &Path) -> String {
+    let mut parts: Vec<String> = vec![];
+    for c in p.components() {
+        match c {
+            Component::Normal(s) => parts.push(s.to_string_lossy().to_string()),
+            Component::ParentDir => parts.push("..".into()),
+            _ => {}
+        }
+    }
+    if parts.is_empty() { "/".into() } else { format!("/{}", parts.join("/")) }
+}
+
+/// The harness's OWN resolver (not the resolve-path crate): absolute → unchanged; first component
+/// `~` → below `home`; otherwise below `cwd`.
+fn mirror_resolve(home: &str, cwd: &str, s: &str) -> String {
+    let p = if s.starts_with('/') {
+        PathBuf::from(s)
+    } else if s == "~" || s.starts_with("~/") {
+        PathBuf::from(home).join(s[1..].trim_start_matches('/'))
+    } else {
+        PathBuf::from(cwd).join(s)
+    };
+    show_components(&p)
+}
+
+fn key_group(v: &Option<Value>) -> String {
+    match v {
+        None => "-".into(),
+        Some(Value::String(x)) => format!("s {}", x.chars().map(|c| (c as u32).to_string()).collect::<Vec<_>>().join(" ")).trim_end().to_string(),
+        Some(_) => "n".into(),
+    }
+}
+
+fn str_group(v: &Option<String>) -> String {
+    match v {
+        None => "-".into(),
+        Some(x) => format!("s {}", x.chars().map(|c| (c as u32).to_string()).collect::<Vec<_>>().join(" ")).trim_end().to_string(),
+    }
+}
+
+fn cps_sp(s: &str) -> String {
+    s.chars().map(|c| (c as u32).to_string()).collect::<Vec<_>>().join(" ")
+}
+
+/// the seven leading groups of a `cfgp` / `effc` op line
+fn cfg_groups(home: &str, cwd: &str, xc: &Option<String>, xd: &Option<String>, u: &Option<Value>, f: &Option<Value>, st: &Option<Value>) -> String {
+    format!("{} | {} | {} | {} | {} | {} | {}", cps_sp(home), cps_sp(cwd), str_group(xc), str_group(xd), key_group(u), key_group(f), key_group(st))
+}
+
+/// one `Config::from_lsp_config` case in the CURRENT process environment (HOME, XDG_*, cwd as set by the caller)
+fn cfgp_case(sess: &mut Session, home: &str, cwd: &str, xc: &Option<String>, xd: &Option<String>, u: &Option<Value>, f: &Option<Value>, st: &Option<Value>) {
+    let mut obj = serde_json::Map::new();
+    if let Some(v) = u {
+        obj.insert("userDictPath".into(), v.clone());
+    }
+    if let Some(v) = f {
+        obj.insert("fileDictPath".into(), v.clone());
+    }
+    if let Some(v) = st {
+        obj.insert("statsPath".into(), v.clone());
+    }
+    let settings = json!({"harper-ls": Value::Object(obj)});
+    let op = format!("cfgp {}", cfg_groups(home, cwd, xc, xd, u, f, st));
+    let real = guarded(|| crate::config::Config::from_lsp_config(settings.clone()));
+    let input = json!({"cfgp": {"settings": settings, "XDG_CONFIG_HOME": xc, "XDG_DATA_HOME": xd}});
+    let imp = match &real {
+        Ok(Ok(c)) => format!("ok U:{} F:{} S:{}", cps(&show_components(&c.user_dict_path)), cps(&show_components(&c.file_dict_path)), cps(&show_components(&c.stats_path))),
+        Ok(Err(_)) => "rejected".to_string(),
+        Err(_) => "panic".to_string(),
+    };
+    let case = sess.k(&op, &imp);
+    sess.count("cfgp-cases");
+    if let Ok(Ok(c)) = &real {
+        // O: a configured, non-empty path string is written where a user means it to be
+        let mut check = |key: &str, val: &Option<Value>, got: &Path, empty_keeps_default: bool| {
+            if let Some(Value::String(x)) = val {
+                if x.is_empty() && empty_keeps_default {
+                    return;
+                }
+                let want = mirror_resolve(home, cwd, x);
+                let got = show_components(got);
+                if got != want {
+                    sess.fail(
+                        "c10-config-path-unresolved",
+                        format!("{} = {:?} (HOME {}, cwd {}) is used as {} — a user means {}", key, x, home, cwd, got, want),
+                        input.clone(),
+                        Some(case),
+                    );
+                }
+            }
+        };
+        check("userDictPath", u, &c.user_dict_path, true);
+        if st.is_none() {
+            check("fileDictPath", f, &c.file_dict_path, true);
+        }
+        check("statsPath (sets the file-dictionary directory)", st, &c.file_dict_path, false);
+        if u.is_some() || f.is_some() || st.is_some() {
+            sess.nontrivial(&op);
+        }
+    }
+}
+
+/// `Config::from_lsp_config` on a grid of path strings × keys, with HOME and the current directory
+/// set to two different temp dirs, and `Config::default()` under XDG variations
+fn cfgp_grid(sess: &mut Session, out_abs: &Path, only: Option<&Value>) {
+    let home = out_abs.join("c10-cfg").join("home dir");
+    let cwd = out_abs.join("c10-cfg").join("cwd");
+    std::fs::create_dir_all(&home).unwrap();
+    std::fs::create_dir_all(&cwd).unwrap();
+    let old_cwd = std::env::current_dir().ok();
+    let saved: Vec<(&str, Option<std::ffi::OsString>)> = ["HOME", "XDG_CONFIG_HOME", "XDG_DATA_HOME"].iter().map(|k| (*k, std::env::var_os(k))).collect();
+    // SAFETY: the harness is single-threaded at this point (no session, no child yet)
+    unsafe { std::env::set_var("HOME", &home) };
+    let _ = std::env::set_current_dir(&cwd);
+    let (home_s, cwd_s) = (home.to_string_lossy().to_string(), cwd.to_string_lossy().to_string());
+    let set_xdg = |xc: &Option<String>, xd: &Option<String>| unsafe {
+        match xc {
+            Some(v) => std::env::set_var("XDG_CONFIG_HOME", v),
+            None => std::env::remove_var("XDG_CONFIG_HOME"),
+        }
+        match xd {
+            Some(v) => std::env::set_var("XDG_DATA_HOME", v),
+            None => std::env::remove_var("XDG_DATA_HOME"),
+        }
+    };
+    if let Some(v) = only {
+        let g = |k: &str| v["settings"]["harper-ls"].get(k).cloned();
+        let xc = v["XDG_CONFIG_HOME"].as_str().map(|x| x.to_string());
+        let xd = v["XDG_DATA_HOME"].as_str().map(|x| x.to_string());
+        set_xdg(&xc, &xd);
+        cfgp_case(sess, &home_s, &cwd_s, &xc, &xd, &g("userDictPath"), &g("fileDictPath"), &g("statsPath"));
+    } else {
+        let strings = ["~", "~/x", "~/", "~//x/./y", "~/../z", "~user/x", "~x", "x/y", "./x", "../x", "a/~/b", "./~/x", "/abs/p", "/abs/../q/", "", " ", "é/ü.txt"];
+        let mut vals: Vec<Option<Value>> = vec![None, Some(json!(5)), Some(Value::Null)];
+        vals.extend(strings.iter().map(|x| Some(json!(x))));
+        let envs: Vec<(Option<String>, Option<String>)> = vec![
+            (None, None),
+            (Some("/xdg/c".into()), Some("/xdg/d".into())),
+            (Some("relative/c".into()), Some("".into())),
+            (Some("~/c".into()), None),
+        ];
+        for (ei, (xc, xd)) in envs.iter().enumerate() {
+            set_xdg(xc, xd);
+            for (i, u) in vals.iter().enumerate() {
+                for (j, f) in vals.iter().enumerate() {
+                    for (k, st) in vals.iter().enumerate() {
+                        // the full grid under the first environment; the diagonal and single keys under the others
+                        let single = [i, j, k].iter().filter(|x| **x != 0).count() <= 1;
+                        if ei == 0 || single || (i == j && j == k) {
+                            cfgp_case(sess, &home_s, &cwd_s, xc, xd, u, f, st);
+                        }
+                    }
+                }
+            }
+        }
+    }
+    unsafe {
+        for (k, v) in saved {
+            match v {
+                Some(x) => std::env::set_var(k, x),
+                None => std::env::remove_var(k),
+            }
+        }
+    }
+    if let Some(d) = old_cwd {
+        let _ = std::env::set_current_dir(d);
+    }
+}
+
+/// One traced server session whose configuration answers carry tilde / relative / absolute paths.
+/// HOME = <tmp>/home, current directory = <tmp>/cwd. The traced write set is compared with the
+/// set predicted from the harness's own resolver (O: `c10-write-outside`, `c10-write-missing`) and
+/// with the Lean model's (`effc`, K).
+fn path_scenario(sess: &mut Session, out_abs: &Path, scenario: &str) -> Value {
+    let tmp = out_abs.join(format!("c10-{}", scenario));
+    let _ = std::fs::remove_dir_all(&tmp);
+    let cwd = tmp.join("cwd");
+    std::fs::create_dir_all(&cwd).unwrap();
+    let trace_file = out_abs.join(format!("c10-{}.strace", scenario));
+    let _ = std::fs::remove_file(&trace_file);
+    let exe = std::env::current_exe().unwrap();
+    let output = std::process::Command::new("strace")
+        .args(["-f", "-qq", "-e", &format!("trace={}", TRACE_SET), "-s", "4096", "-o"])
+        .arg(&trace_file)
+        .arg(&exe)
+        .args(["C10-child", scenario])
+        .arg(&tmp)
+        .current_dir(&cwd)
+        .output();
+    let (ok, stdout) = match &output {
+        Ok(o) => (o.status.success(), String::from_utf8_lossy(&o.stdout).to_string()),
+        Err(_) => (false, String::new()),
+    };
+    let child: Value = stdout.lines().find_map(|l| l.strip_prefix("C10-CHILD ")).and_then(|j| serde_json::from_str(j).ok()).unwrap_or(json!({}));
+    let text = std::fs::read_to_string(&trace_file).unwrap_or_default();
+    let traced_ok = ok && !text.is_empty() && child.get("error").is_none() && child.get("scenario").is_some();
+    sess.monitor("strace could trace the child process and the scenario ran to its end", traced_ok);
+    if !traced_ok {
+        return json!({"error": "child did not run under strace", "child": child});
+    }
+    let home_s = tmp.join("home").to_string_lossy().to_string();
+    let cwd_s = cwd.to_string_lossy().to_string();
+    let tmp_s = tmp.to_string_lossy().to_string();
+    let cfg = paths_config(scenario, &tmp);
+    let get = |k: &str| cfg.get(k).cloned();
+    let (u, f, st) = (get("userDictPath"), get("fileDictPath"), get("statsPath"));
+    let doc = child["docs"][0].as_str().unwrap_or("").to_string();
+    // ---- expected, from the harness's own resolver
+    let as_str = |v: &Option<Value>| v.as_ref().and_then(|x| x.as_str().map(|y| y.to_string()));
+    let user = as_str(&u).filter(|x| !x.is_empty()).map(|x| mirror_resolve(&home_s, &cwd_s, &x)).unwrap_or(child["user_dict"].as_str().unwrap_or("").to_string());
+    let fdir = match (as_str(&st), as_str(&f).filter(|x| !x.is_empty())) {
+        (Some(x), _) => mirror_resolve(&home_s, &cwd_s, &x),
+        (None, Some(x)) => mirror_resolve(&home_s, &cwd_s, &x),
+        _ => child["file_dict_dir"].as_str().unwrap_or("").to_string(),
+    };
+    let (user, fdir) = (norm(&user), norm(&fdir));
+    let stats = norm(child["stats"].as_str().unwrap_or(""));
+    let name = Url::parse(&file_url(Path::new(&doc))).ok().and_then(|x| file_dict_name(&x).ok()).map(|x| x.to_string_lossy().to_string()).unwrap_or_default();
+    let fdict = format!("{}/{}", fdir, name);
+    let parent = |x: &str| Path::new(x).parent().map(|y| y.to_string_lossy().to_string()).unwrap_or_default();
+    let want_files: BTreeSet<String> = [format!("c:{}", user), format!("c:{}", fdict), format!("a:{}", stats)].into_iter().collect();
+    let want_dirs: Vec<String> = vec![parent(&user), fdir.clone(), parent(&stats)];
+    // ---- observed
+    let own: Vec<String> = vec![norm(&doc), parent(&norm(&doc)), norm(&home_s)];
+    let mut eff: BTreeSet<String> = BTreeSet::new();
+    let mut bad: Vec<(String, String)> = vec![];
+    let calls = parse_trace(&text);
+    let absolutize = |p: &str| if p.starts_with('/') { norm(p) } else { norm(&format!("{}/{}", cwd_s, p)) };
+    for c in &calls {
+        match c.name.as_str() {
+            "socket" | "socketpair" | "connect" | "bind" | "listen" | "accept" | "accept4" | "sendto" | "sendmsg" | "sendmmsg" => {
+                bad.push(("c10-network-syscall".into(), format!("network: {}({}) = {}", c.name, c.args, c.ret)));
+            }
+            "openat" | "open" | "creat" => {
+                let Some(path) = quoted(&c.args).into_iter().next() else { continue };
+                let p = absolutize(&path);
+                let writing = c.name == "creat" || ["O_WRONLY", "O_RDWR", "O_CREAT", "O_TRUNC", "O_APPEND"].iter().any(|fl| c.args.contains(fl));
+                if writing {
+                    if p == "/dev/null" || p.starts_with("/proc/self/") || own.contains(&p) {
+                        continue;
+                    }
+                    let tag = format!("{}:{}", if c.args.contains("O_APPEND") { "a" } else { "c" }, p);
+                    if !want_files.contains(&tag) {
+                        bad.push(("c10-write-outside".into(), format!("write outside the RESOLVED configured paths: {}({}) = {} (allowed: {:?})", c.name, c.args, c.ret, want_files)));
+                    }
+                    eff.insert(tag);
+                } else if (p.starts_with(&format!("{}/", tmp_s))) && !c.args.contains("O_DIRECTORY") {
+                    eff.insert(format!("r:{}", p));
+                }
+            }
+            "mkdir" | "mkdirat" => {
+                let Some(path) = quoted(&c.args).into_iter().next() else { continue };
+                let p = absolutize(&path);
+                if own.contains(&p) {
+                    continue;
+                }
+                if want_dirs.contains(&p) {
+                    eff.insert(format!("m:{}", p));
+                } else if !(p.starts_with(&tmp_s) && want_dirs.iter().any(|d| Path::new(d).starts_with(&p))) {
+                    bad.push(("c10-write-outside".into(), format!("mkdir outside the RESOLVED configured directories: {}({}) = {} (allowed: {:?} and their ancestors)", c.name, c.args, c.ret, want_dirs)));
+                    eff.insert(format!("m:{}", p));
+                }
+            }
+            "rename" | "renameat" | "renameat2" | "unlink" | "unlinkat" | "rmdir" | "link" | "linkat" | "symlink" | "symlinkat" | "truncate" | "chmod" | "fchmodat" => {
+                let paths: Vec<String> = quoted(&c.args).iter().map(|p| absolutize(p)).collect();
+                if !paths.iter().all(|p| own.contains(p)) {
+                    bad.push(("c10-write-outside".into(), format!("file-modifying call the model does not have: {}({}) = {}", c.name, c.args, c.ret)));
+                }
+            }
+            _ => {}
+        }
+    }
+    for w in want_files.iter().cloned().chain(want_dirs.iter().map(|d| format!("m:{}", d))) {
+        if !eff.contains(&w) {
+            bad.push(("c10-write-missing".into(), format!("the configured path is never written: expected {} (configuration {}, HOME {}, cwd {})", w, cfg, home_s, cwd_s)));
+        }
+    }
+    // ---- K: the Lean model's prediction for the same configuration strings
+    let xc = Some(format!("{}/config", home_s));
+    let xd = Some(format!("{}/data", home_s));
+    let d = cps_sp(&doc);
+    let op = format!("effc {} | stdio | upd 0 {d} | addu 1 0 {d} | addf 1 0 {d} | shutdown", cfg_groups(&home_s, &cwd_s, &xc, &xd, &u, &f, &st), d = d);
+    let show = |t: &String| format!("{}:{}", &t[..1], cps(&t[2..]));
+    let imp = format!("ok {}", eff.iter().map(show).collect::<BTreeSet<_>>().into_iter().collect::<Vec<_>>().join(" "));
+    let case = sess.k(&op, &imp);
+    sess.nontrivial(&op);
+    sess.o();
+    let input = json!({"scenario": scenario, "config": cfg, "home": home_s, "cwd": cwd_s});
+    for (class, desc) in &bad {
+        sess.fail(class, format!("scenario {}: {}", scenario, desc), input.clone(), Some(case));
+    }
+    json!({"config": cfg, "home": home_s, "cwd": cwd_s, "expected_writes": want_files, "expected_mkdirs": want_dirs, "effects_observed": eff,
+           "violations": bad.iter().map(|b| b.1.clone()).collect::<Vec<_>>(), "syscalls_traced": calls.len()})
+}
+
 fn strace_available() -> bool {
     std::process::Command::new("strace").arg("-V").output().map(|o| o.status.success()).unwrap_or(false)
 }
@@ -898,6 +1241,29 @@ pub fn run(ctx: &Ctx) {
     let mut extra = serde_json::Map::new();
     std::fs::create_dir_all(&ctx.out).unwrap();
     let out_abs = std::fs::canonicalize(&ctx.out).unwrap();
+    if let Some(v) = replay_input(ctx) {
+        if let Some(u) = v["url"].as_str() {
+            fdn_case(&mut sess, u, "replay");
+        } else if v.get("cfgp").is_some() {
+            cfgp_grid(&mut sess, &out_abs, Some(&v["cfgp"]));
+        } else if let Some(sc) = v["scenario"].as_str() {
+            if PATH_SCENARIOS.contains(&sc) && strace_available() {
+                extra.insert(sc.to_string(), path_scenario(&mut sess, &out_abs, sc));
+            }
+        }
+        sess.nontrivial("replay-a");
+        sess.finish("replay of one recorded input", false, Value::Object(extra));
+        return;
+    }
+
+    // ---- 0. traced sessions with tilde / relative / absolute configured paths (first, so that a
+    //         failing SCENARIO is the replay the verdict driver names) -----------------------------
+    let mut path_reports: Vec<(String, Value)> = vec![];
+    if strace_available() {
+        for sc in PATH_SCENARIOS {
+            path_reports.push((sc.to_string(), path_scenario(&mut sess, &out_abs, sc)));
+        }
+    }
 
     // ---- 1. file_dict_name vs the model ----------------------------------------------------------
     for u in hostile_urls() {
@@ -916,6 +1282,9 @@ pub fn run(ctx: &Ctx) {
         }
         fdn_case(&mut sess, &s, "random");
     }
+
+    // ---- 1b. configured path strings vs the model ------------------------------------------------
+    cfgp_grid(&mut sess, &out_abs, None);
 
     // ---- 2. lookups ------------------------------------------------------------------------------
     extra.insert("dependency_closure_lookup".into(), dependency_closure());
@@ -1029,6 +1398,9 @@ pub fn run(ctx: &Ctx) {
             }),
         );
     }
+    for (k, v) in path_reports {
+        scen_report.insert(k, v);
+    }
     extra.insert("scenarios".into(), Value::Object(scen_report));
     // (re)built by the thorough tier, on request, and — incrementally — whenever it exists already, so
     // that it always reflects /repo's working tree
@@ -1045,7 +1417,7 @@ pub fn run(ctx: &Ctx) {
     }
     extra.insert("trace".into(), json!(format!("strace -f -qq -e trace={}", TRACE_SET)));
     sess.finish(
-        "file_dict_name vs the model on a hostile-URL corpus (.., %2F, %2E, NUL, invalid UTF-8, astral, 5000-char, non-file URLs) and random URLs over 28 fragments; three scenarios (library pipeline over 11 languages, harper_wasm::Linter natively, in-process language server session ending in shutdown/save_stats) each in a child process under strace: traced write set + reads under the temp HOME vs the effect model's prediction, and no network-family syscall at all. Non-trivial = a file_dict_name result of ≥2 characters or a traced scenario.",
+        "file_dict_name vs the model on a hostile-URL corpus (.., %2F, %2E, NUL, invalid UTF-8, astral, 5000-char, non-file URLs) and random URLs over 28 fragments; Config::from_lsp_config vs the model on the full grid of 20 values (absent, non-string, null, 17 path strings: ~, ~/x, ~/, ~//x/./y, ~/../z, ~user/x, relative, ./x, ../x, absolute, empty, …) for each of userDictPath × fileDictPath × statsPath with HOME and the current directory two different temp dirs, plus XDG_CONFIG_HOME / XDG_DATA_HOME variations; four traced server sessions whose configuration answers carry tilde / relative / absolute paths (add-to-user-dict, add-to-file-dict, shutdown) whose write set must equal the resolved configured paths; three scenarios (library pipeline over 11 languages, harper_wasm::Linter natively, in-process language server session ending in shutdown/save_stats) each in a child process under strace: traced write set + reads under the temp HOME vs the effect model's prediction, and no network-family syscall at all. Non-trivial = a file_dict_name result of ≥2 characters or a traced scenario.",
         false,
         Value::Object(extra),
     );
